@@ -95,10 +95,24 @@ def bad(node, msg):
 # such as "Ind"); ("List", T); ("Prod", (T, U, ...)); ("Option", T)
 
 NUMERIC = ("Int", "Nat", "Rat")
+TYPE_ALIAS = {}                  # spec type -> Lean type it is written as (`lean_types` of the current spec entry)
+
+
+def has_unknown(t):
+    """an element type that is still to be found by the next typing pass"""
+    if t == "?":
+        return True
+    if isinstance(t, tuple):
+        if t[0] == "Prod":
+            return any(has_unknown(x) for x in t[1])
+        return has_unknown(t[1])
+    return False
 
 
 def tshow(t, top=True):
     if isinstance(t, str):
+        if t in TYPE_ALIAS:
+            return TYPE_ALIAS[t]
         return "Int" if t == "IntLit" else t
     if t[0] == "List":
         s = "List " + tshow(t[1], False)
@@ -168,7 +182,17 @@ class Tup(N):
         self.items = list(items)
 
 
+class FuelMatch(N):              # match fuel with | 0 => none | pred + 1 => body
+    def __init__(self, fuel, pred, body, none):
+        self.fuel, self.pred, self.body, self.none = fuel, pred, body, none
+
+
 class Rec(N):                    # recursive call of a loop function on its tail
+    def __init__(self, loop):
+        self.loop = loop
+
+
+class Out(N):                    # value of a nested loop function at its exit: the carried variables
     def __init__(self, loop):
         self.loop = loop
 
@@ -224,12 +248,15 @@ def fv(n, bound=frozenset(), acc=None):
         fv(n.body, bound | frozenset(pat_vars(n.pat)), acc)
     elif isinstance(n, MatchOpt):
         fv(n.e, bound, acc)
-        fv(n.body, bound | {n.x}, acc)
+        fv(n.body, bound | frozenset(pat_vars(n.x)), acc)
+        fv(n.none, bound, acc)
+    elif isinstance(n, FuelMatch):
+        fv(n.body, bound | {n.pred, n.fuel}, acc)
         fv(n.none, bound, acc)
     elif isinstance(n, Tup):
         for a in n.items:
             fv(a, bound, acc)
-    elif isinstance(n, Rec):
+    elif isinstance(n, (Rec, Out)):
         pass                      # its arguments are the carried variables themselves
     elif isinstance(n, Call):
         fv(n.lst, bound, acc)
@@ -260,7 +287,9 @@ def pe(n):
     if isinstance(n, Let):
         return "(let %s := %s; %s)" % (pat_show(n.pat), pe(n.e), pe(n.body))
     if isinstance(n, MatchOpt):
-        return "(match %s with | some %s => %s | none => %s)" % (pe(n.e), n.x, pe(n.body), pe(n.none))
+        return "(match %s with | some %s => %s | none => %s)" % (pe(n.e), pat_show(n.x), pe(n.body), pe(n.none))
+    if isinstance(n, FuelMatch):
+        return "(match %s with | 0 => %s | %s + 1 => %s)" % (n.fuel, pe(n.none), n.pred, pe(n.body))
     if isinstance(n, Tup):
         return "(" + ", ".join(pe(a) for a in n.items) + ")"
     if isinstance(n, Rec):
@@ -269,6 +298,10 @@ def pe(n):
     if isinstance(n, Call):
         lp = n.loop
         return "(" + " ".join([lp.name] + lp.fixed + [pe(n.lst)] + lp.carried) + ")"
+    if isinstance(n, Out):
+        lp = n.loop
+        t = lp.carried[0] if len(lp.carried) == 1 else "(" + ", ".join(lp.carried) + ")"
+        return "(some %s)" % t if lp.raises else t
     raise TypeError(n)
 
 
@@ -285,8 +318,13 @@ def pp(n, ind):
     if isinstance(n, Let):
         return [sp + "let %s := %s" % (pat_show(n.pat), pe(n.e))] + pp(n.body, ind)
     if isinstance(n, MatchOpt):
-        out = [sp + "(match %s with" % pe(n.e), sp + "| some %s =>" % n.x] + pp(n.body, ind + 1)
+        out = [sp + "(match %s with" % pe(n.e), sp + "| some %s =>" % pat_show(n.x)] + pp(n.body, ind + 1)
         out += [sp + "| none => %s)" % pe(n.none)]
+        return out
+    if isinstance(n, FuelMatch):
+        out = [sp + "(match %s with" % n.fuel, sp + "| 0 => %s" % pe(n.none), sp + "| %s + 1 =>" % n.pred]
+        out += pp(n.body, ind + 1)
+        out[-1] += ")"
         return out
     return [sp + pe(n)]
 
@@ -322,6 +360,17 @@ class Fn:
         self.none_ret = spec.get("none_ret")      # Lean text returned when the function falls off its end
         self.vartype = {}                         # literal-typing hints found by the previous pass
         self.lean_param_names = [p for p, _ in self.params]
+        self.tables = spec.get("tables", {})      # per-object feature tables: lean var -> value type (a list by position)
+        self.fuel = list(spec.get("fuel", []))    # Lean text of the fuel of the k-th `while` loop (source order)
+        self.table_keys = {}                      # "['key']" -> table, for the syntactic mutation analysis
+        for tb in self.types.values():
+            for acc, (tmpl, _) in tb.items():
+                if tmpl.startswith("@"):
+                    self.table_keys[acc] = tmpl[1:]
+        TYPE_ALIAS.clear()
+        TYPE_ALIAS.update(spec.get("lean_types", {}))
+        ws = sorted((n for n in ast.walk(fndef) if isinstance(n, ast.While)), key=lambda n: (n.lineno, n.col_offset))
+        self.while_index = {id(n): k for k, n in enumerate(ws)}
 
     # -- driver -------------------------------------------------------------------------
     def compile(self):
@@ -330,12 +379,14 @@ class Fn:
             self.unresolved = False
             self.defs = []
             self.nloops = 0
+            self.nwhile = 0
+            self.depth = 0
             self.ntmp = 0
             self.lits = []
             body = self.run()
             new = {}
             for x, ts in self.observed.items():
-                conc = sorted(set(t for t in ts if t != "IntLit" and t != ("List", "?")), key=str)
+                conc = sorted(set(t for t in ts if t != "IntLit" and not has_unknown(t)), key=str)
                 if len(conc) == 1:
                     new[x] = conc[0]
                 elif len(conc) > 1:
@@ -358,6 +409,8 @@ class Fn:
         env = dict(self.vars)
         for k, (lv, ty) in self.state.items():
             env[lv] = ty
+        for tb, ty in self.tables.items():
+            env[tb] = ("List", ty)
         stmts = self.fn.body
 
         def fall(env):
@@ -374,8 +427,8 @@ class Fn:
 
     def mentions(self, text):
         ids = set(re.findall(r"[A-Za-z_][A-Za-z_0-9']*", text))
-        names = self.lean_param_names + [lv for lv, _ in self.state.values()]
-        return [p for p in names if p in ids]
+        names = self.lean_param_names + [lv for lv, _ in self.state.values()] + list(self.tables)
+        return list(dict.fromkeys(p for p in names if p in ids))
 
     def none(self, node):
         if not self.raises:
@@ -482,6 +535,14 @@ class Fn:
         self.ntmp += 1
         return "t%d" % self.ntmp
 
+    def right_raises(self, test, env):
+        """does an operand other than the first of a short-circuit test contain a raising operation?"""
+        saved = self.ntmp
+        try:
+            return any(self.cond(v, env)[0] for v in test.values[1:])
+        finally:
+            self.ntmp = saved
+
     # -- statements ---------------------------------------------------------------------
     def block(self, stmts, env, k, ctx):
         """Lean term for `stmts` followed by continuation `k` (env -> term).
@@ -501,6 +562,8 @@ class Fn:
             return after(env)                                   # docstring
         if isinstance(st, ast.Pass):
             return after(env)
+        if isinstance(st, ast.Return) and self.depth >= 2:
+            bad(st, "return inside a nested loop")
         if isinstance(st, ast.Return):
             if st.value is None:
                 if self.ret != "Unit":
@@ -527,6 +590,18 @@ class Fn:
             if not isinstance(st.op, (ast.Add, ast.Sub, ast.Mult)):
                 bad(st, "augmented assignment operator")
             return self.assign(st.target, st.value, st.op, st, env, after)
+        if isinstance(st, ast.If) and isinstance(st.test, ast.BoolOp) and self.right_raises(st.test, env):
+            # `if a and b: S else: T` with a raising operation in b  ==  `if a: (if b: S else: T) else: T`
+            # (`if a or b: S else: T`  ==  `if a: S else: (if b: S else: T)`): exact in Python, b is only
+            # evaluated where Python evaluates it
+            vals = st.test.values
+            tail = vals[1] if len(vals) == 2 else ast.copy_location(ast.BoolOp(op=st.test.op, values=vals[1:]), st.test)
+            inner = ast.copy_location(ast.If(test=tail, body=st.body, orelse=st.orelse), st)
+            if isinstance(st.test.op, ast.And):
+                outer = ast.copy_location(ast.If(test=vals[0], body=[inner], orelse=st.orelse), st)
+            else:
+                outer = ast.copy_location(ast.If(test=vals[0], body=st.body, orelse=[inner]), st)
+            return self.block([outer] + rest, env, k, ctx)
         if isinstance(st, ast.If):
             pre, c = self.cond(st.test, env)
             conv = self.if_convert(st, c, env)
@@ -546,6 +621,10 @@ class Fn:
             if st.orelse:
                 bad(st, "for/else")
             return self.loop(st, env, after)
+        if isinstance(st, ast.While):
+            if st.orelse:
+                bad(st, "while/else")
+            return self.loop(st, env, after)
         if isinstance(st, ast.Expr) and isinstance(st.value, ast.Call):
             return self.effect(st, env, after)
         if isinstance(st, ast.Delete):
@@ -563,7 +642,65 @@ class Fn:
             return tgt.id
         bad(tgt, "assignment target")
 
+    def table_ref(self, n, env):
+        """`obj.features['key']` that the spec maps to a per-object table -> (pre, table, key term, value type)"""
+        if not (isinstance(n, ast.Subscript) and isinstance(n.slice, ast.Constant) and isinstance(n.slice.value, str)):
+            return None
+        acc = "[%r]" % n.slice.value
+        if acc not in self.table_keys:
+            return None
+        pre, b, tb = self.expr(n.value, env)
+        table = self.types.get(tb) if isinstance(tb, str) else None
+        if table is None or acc not in table or not table[acc][0].startswith("@"):
+            return None
+        return pre, table[acc][0][1:], b, table[acc][1]
+
+    def elem_ref(self, n, env):
+        """`xs[i]` on a local list variable -> (pre, xs, get term : Option, set(v) term : Option, element type)"""
+        if not (isinstance(n, ast.Subscript) and isinstance(n.value, ast.Name) and not isinstance(n.slice, ast.Slice)):
+            return None
+        x = n.value.id
+        if x not in env or not (isinstance(env[x], tuple) and env[x][0] == "List") or x in self.lean_param_names:
+            return None
+        pre, i, ti = self.expr(n.slice, env, "Nat" if not isinstance(n.slice, (ast.UnaryOp, ast.BinOp)) else "Int")
+        if ti == "IntLit":
+            self.setlit(i, "Int", n)
+            ti = "Int"
+        if ti == "Nat":
+            i, ti = self.coerce(i, "Nat", "Int", n), "Int"
+        if ti != "Int":
+            bad(n, "list index of type %s" % tshow(ti))
+        self.need("pyGet")
+        self.need("pySet")
+        return (pre, x, Tm("(pyGet {0} {1})", [V(x), i]),
+                lambda v: Tm("(pySet {0} {1} {2})", [V(x), i, v]), env[x][1])
+
+    def assign_table(self, ref, value, op, st, env, after):
+        """`obj.features['key'] = e` / `+= e` on a table: functional update of the list at the object's position;
+        a position without an entry is `none` (never a default)"""
+        pre, tab, key, vty = ref
+        if op is None:
+            p2, v, ty = self.expr(value, env, vty)
+            v = self.coerce(v, ty, vty, st)
+            pre = pre + p2 + [("guard", Op("<", key, Tm("(List.length {0})", [V(tab)])))]
+        else:
+            if vty not in NUMERIC:
+                bad(st, "augmented assignment on a table of %s" % tshow(vty))
+            t = self.tmp()
+            p2, v, ty = self.expr(value, env, vty)
+            v = self.coerce(v, ty, vty, st)
+            o = {ast.Add: "+", ast.Sub: "-", ast.Mult: "*"}[type(op)]
+            if o == "-" and vty == "Nat":
+                bad(st, "subtraction on a table of natural numbers")
+            pre = pre + [("bind", t, Tm("{0}[{1}]?", [V(tab), key]))] + p2
+            v = Op(o, V(t), v)
+        env2 = self.forget(self.learn(env, pre), [tab])
+        return self.wrap(pre, Let(tab, Tm("(List.set {0} {1} {2})", [V(tab), key, v]), after(env2)), st, env)
+
     def assign(self, tgt, value, op, st, env, after):
+        ref = self.table_ref(tgt, env)
+        if ref is not None:
+            return self.assign_table(ref, value, op, st, env, after)
         x = self.target_var(tgt, env)
         hint = env.get(x) or self.vartype.get(x)
         if op is None:
@@ -574,8 +711,8 @@ class Fn:
         else:
             pre, v, ty = self.expr(ast.BinOp(left=tgt, op=op, right=value, lineno=st.lineno), env, hint)
         self.observed.setdefault(x, []).append(ty)
-        if ty == ("List", "?") and self.vartype.get(x):
-            v, ty = C("([] : %s)" % tshow(self.vartype[x])), self.vartype[x]
+        if has_unknown(ty) and self.vartype.get(x) and op is None:
+            pre, v, ty = self.expr(value, env, self.vartype[x])     # e.g. `[]` / `[[]]` at the type found by the last pass
         elif ty == "IntLit" and self.vartype.get(x):
             v, ty = self.coerce(v, ty, self.vartype[x], st), self.vartype[x]
         elif self.vartype.get(x) and ty != self.vartype[x]:
@@ -591,10 +728,40 @@ class Fn:
         call = st.value
         f = call.func
         if isinstance(f, ast.Attribute) and f.attr == "append" and len(call.args) == 1 and not call.keywords:
+            ref = self.table_ref(f.value, env)
+            if ref is not None:
+                # obj.features['key'].append(e): the table entry of the object is a list
+                pre, tab, key, vty = ref
+                if not (isinstance(vty, tuple) and vty[0] == "List"):
+                    bad(st, "append on a table entry that is not a list")
+                p2, v, ty = self.expr(call.args[0], env, vty[1])
+                v = self.coerce(v, ty, vty[1], st)
+                t = self.tmp()
+                pre = pre + [("bind", t, Tm("{0}[{1}]?", [V(tab), key]))] + p2
+                return self.wrap(pre, Let(tab, Tm("(List.set {0} {1} ({2} ++ [{3}]))", [V(tab), key, V(t), v]),
+                                          after(self.forget(env, [tab]))), st, env)
+            ref = self.elem_ref(f.value, env)
+            if ref is not None:
+                # xs[i].append(e) on a local list of lists
+                pre, x, get, setter, ety = ref
+                if has_unknown(ety):
+                    p2, v, ty = self.expr(call.args[0], env)
+                    self.observed.setdefault(x, []).append(("List", ("List", ty)))
+                    self.unresolved = True
+                else:
+                    if not (isinstance(ety, tuple) and ety[0] == "List"):
+                        bad(st, "append on a list element that is not a list")
+                    p2, v, ty = self.expr(call.args[0], env, ety[1])
+                    v = self.coerce(v, ty, ety[1], st)
+                t, t2 = self.tmp(), self.tmp()
+                pre = pre + [("bind", t, get)] + p2
+                body = MatchOpt(setter(Tm("({0} ++ [{1}])", [V(t), v])), t2,
+                                Let(x, V(t2), after(self.forget(env, [x]))), self.none(st))
+                return self.wrap(pre, body, st, env)
             x = self.target_var(f.value, env)
             if x not in env or not (isinstance(env[x], tuple) and env[x][0] == "List"):
                 bad(st, "append on something that is not a list variable")
-            if env[x][1] == "?":
+            if has_unknown(env[x][1]):
                 pre, v, ty = self.expr(call.args[0], env)
                 self.observed.setdefault(x, []).append(("List", ty))
                 self.unresolved = True
@@ -623,6 +790,13 @@ class Fn:
                             Let(x, Tm("(List.eraseIdx {0} {1})", [V(x), V(t)]), after(self.forget(env, [x]))),
                             self.none(st))
             return self.wrap(pre, body, st, env)
+        if isinstance(f, ast.Attribute) and f.attr == "pop" and not call.args and not call.keywords:
+            # xs.pop() as a statement: drop the last member; IndexError on an empty list
+            x = self.target_var(f.value, env)
+            if x not in env or not (isinstance(env[x], tuple) and env[x][0] == "List"):
+                bad(st, "pop on something that is not a list variable")
+            pre = [("guard", Op("≠", V(x), C("[]")))]
+            return self.wrap(pre, Let(x, Tm("(List.dropLast {0})", [V(x)]), after(self.forget(env, [x]))), st, env)
         key = ast.unparse(f)
         if key in self.calls and self.calls[key].get("stmt"):
             return self.calls[key]["stmt"](self, st, env, after)
@@ -647,14 +821,139 @@ class Fn:
         body = MatchOpt(Tm("(pyDel {0} {1})", [V(x), i]), t, Let(x, V(t), after(self.forget(env, [x]))), self.none(st))
         return self.wrap(pre, body, st, env)
 
+    MUTATORS = ("append", "remove", "extend", "insert", "pop", "sort", "reverse", "clear")
+
+    def lvalue_var(self, t):
+        """Lean variable that an assignment to / in-place mutation of `t` rebinds (syntactic), or None"""
+        key = ast.unparse(t)
+        if key in self.state:
+            return self.state[key][0]
+        if isinstance(t, ast.Name):
+            return t.id
+        if isinstance(t, ast.Subscript):
+            if isinstance(t.slice, ast.Constant) and isinstance(t.slice.value, str) \
+                    and "[%r]" % t.slice.value in self.table_keys:
+                return self.table_keys["[%r]" % t.slice.value]
+            return self.lvalue_var(t.value)
+        return None
+
+    def assigned_in(self, stmts):
+        """Lean variables assigned or mutated in place somewhere in `stmts`"""
+        out = []
+
+        def add(t):
+            if isinstance(t, (ast.Tuple, ast.List)):
+                for e in t.elts:
+                    add(e)
+                return
+            x = self.lvalue_var(t)
+            if x is not None and x not in out:
+                out.append(x)
+        for s0 in stmts:
+            for n in ast.walk(s0):
+                if isinstance(n, ast.Assign):
+                    for t in n.targets:
+                        add(t)
+                elif isinstance(n, ast.AugAssign):
+                    add(n.target)
+                elif isinstance(n, ast.For):
+                    add(n.target)
+                elif isinstance(n, ast.Delete):
+                    for t in n.targets:
+                        add(t)
+                elif isinstance(n, ast.Expr) and isinstance(n.value, ast.Call):
+                    f = n.value.func
+                    if isinstance(f, ast.Attribute) and f.attr in self.MUTATORS:
+                        add(f.value)
+                    for x in self.calls.get(ast.unparse(f), {}).get("mutates", []):
+                        if x not in out:
+                            out.append(x)
+        return out
+
+    def snapshot_guard(self, st, env):
+        """`for x in <it>` is compiled on the *value* of the iterable at loop entry.  That is Python's meaning
+        only if the list object is not mutated while the loop runs:
+          * a table entry `obj.features['key']`: the table must not be written in the body;
+          * an element `X[v - a]` of a local list of lists X: the body may only touch X by `X[v - b].append(..)`
+            with the same variable v (not assigned in the body) and a different constant b; both indices must be
+            non-negative (a negative index could alias the other element), which is emitted as a guard.
+        Everything else is rejected."""
+        it = st.iter
+        muts = self.assigned_in(st.body)
+        if isinstance(it, ast.Subscript) and isinstance(it.slice, ast.Constant) and isinstance(it.slice.value, str):
+            tab = self.table_keys.get("[%r]" % it.slice.value)
+            if tab is not None and tab in muts:
+                bad(st, "iteration over a table entry while the loop body writes that table")
+            return []
+        if isinstance(it, ast.Subscript) and isinstance(it.value, ast.Name):
+            x = it.value.id
+
+            def offs(e):
+                if isinstance(e, ast.Name):
+                    return e.id, 0
+                if isinstance(e, ast.BinOp) and isinstance(e.op, ast.Sub) and isinstance(e.left, ast.Name) \
+                        and isinstance(e.right, ast.Constant) and isinstance(e.right.value, int) \
+                        and not isinstance(e.right.value, bool) and e.right.value >= 0:
+                    return e.left.id, e.right.value
+                return None
+            if x not in muts:
+                return []
+            a = offs(it.slice)
+            if a is None or a[0] in muts:
+                bad(st, "iteration over an element of a list that the loop body mutates (index not of the form v - const)")
+            worst = a[1]
+            for s0 in st.body:
+                for n in ast.walk(s0):
+                    tg = []
+                    if isinstance(n, ast.Assign):
+                        tg = n.targets
+                    elif isinstance(n, ast.AugAssign):
+                        tg = [n.target]
+                    elif isinstance(n, ast.Delete):
+                        tg = n.targets
+                    elif isinstance(n, ast.Expr) and isinstance(n.value, ast.Call) \
+                            and isinstance(n.value.func, ast.Attribute) and n.value.func.attr in self.MUTATORS:
+                        f = n.value.func
+                        if self.lvalue_var(f.value) == x:
+                            b = offs(f.value.slice) if (f.attr == "append" and isinstance(f.value, ast.Subscript)
+                                                        and isinstance(f.value.value, ast.Name)) else None
+                            if b is None or b[0] != a[0] or b[1] == a[1]:
+                                bad(n, "mutation of the list whose element the enclosing loop iterates over")
+                            worst = max(worst, b[1])
+                        continue
+                    for t in tg:
+                        if self.lvalue_var(t) == x:
+                            bad(n, "mutation of the list whose element the enclosing loop iterates over")
+            if env.get(a[0]) not in ("Nat", "Int"):
+                bad(st, "index variable of the iterated element is not an integer")
+            v = V(a[0]) if env[a[0]] == "Int" else Tm("({0} : Int)", [V(a[0])])
+            return [("guard", Op("≤", C("(%d : Int)" % worst), v))]
+        return []
+
     def loop(self, st, env, after):
-        if any(isinstance(n, ast.For) for b in st.body for n in ast.walk(b)):
-            bad(st, "nested for loop")
-        pre, lst, ety, pat, patenv = self.iterable(st.iter, st.target, env)
+        is_while = isinstance(st, ast.While)
+        nested = self.depth >= 1
+        if is_while:
+            if not self.raises:
+                bad(st, "while loop in a function that the spec declares total (running out of fuel is `none`)")
+            k = self.while_index.get(id(st))
+            if k is None or k >= len(self.fuel):
+                bad(st, "while loop without a fuel entry in the spec")
+            ftxt = "(%s)" % self.fuel[k]
+            pre, lst, ety, pat, patenv = [], Tm(ftxt.replace("{", "{{").replace("}", "}}"), fv=self.mentions(ftxt)), \
+                "Nat", None, {}
+        else:
+            pre = self.snapshot_guard(st, env)
+            p2, lst, ety, pat, patenv = self.iterable(st.iter, st.target, env)
+            pre = pre + p2
         self.nloops += 1
-        lp = Loop("%s_loop%d" % (self.lean, self.nloops), "tl%d" % self.nloops)
+        lp = Loop("%s_loop%d" % (self.lean, self.nloops), ("fl%d" if is_while else "tl%d") % self.nloops)
+        lp.kind = "while" if is_while else "for"
+        lp.nested = nested
+        lp.raises = self.raises
+        fuel = "fuel%d" % self.nloops
         env = self.forget(env, None)
-        nil = after(env)
+        nil = Out(lp) if nested else after(env)
         env2 = dict(env)
         for a, b in patenv.items():
             if a in env and env[a] != b:
@@ -664,36 +963,84 @@ class Fn:
             env2[a] = b
             self.observed.setdefault(a, []).append(b)
 
-        def chk(e):
+        def same(e):
             for a, b in env.items():
                 if a != self.FACTS and e.get(a) != b and b == "IntLit" and e.get(a) in NUMERIC:
                     self.observed.setdefault(a, []).append(e[a])       # retyped by the next pass
                 elif a != self.FACTS and e.get(a) != b:
                     bad(st, "variable %s has type %s at loop entry and %s at the end of the body"
                         % (a, tshow(b), tshow(e.get(a))))
+
+        def chk(e):
+            same(e)
             return Rec(lp)
-        body = self.block(st.body, env2, chk, (after, chk))
-        pv = set(pat_vars(pat)) | {lp.tl}
-        free = [x for x in fv(body) if x not in pv]
-        for x in fv(nil):
-            if x not in free:
-                free.append(x)
+
+        def brk(e):
+            if not nested:
+                return after(e)
+            same(e)
+            return Out(lp)
+        self.depth += 1
+        try:
+            body = self.block(st.body, env2, chk, (brk, chk))
+        finally:
+            self.depth -= 1
+        if is_while:
+            cpre, c = self.cond(st.test, env)
+            body = self.wrap(cpre, If(c, FuelMatch(fuel, lp.tl, body, self.none(st)), nil), st)
+            pv = {fuel, lp.tl}
+            free = [x for x in fv(body) if x not in pv]
+        else:
+            pv = set(pat_vars(pat)) | {lp.tl}
+            free = [x for x in fv(body) if x not in pv]
+            for x in fv(nil):
+                if x not in free:
+                    free.append(x)
         assigned = self.assigned
-        lp.fixed = [p for p in self.lean_param_names if p in free and p not in assigned]
-        lp.carried = [x for x in free if x not in lp.fixed]
+        ptypes = dict(self.params)
+        if nested:
+            inner = self.assigned_in(st.body) + ([] if is_while else pat_vars(pat))
+            lp.carried = [x for x in free if x in inner and x in env]
+            lp.carried += [x for x in env if x in inner and x not in lp.carried and x != self.FACTS]
+            if not lp.carried:
+                bad(st, "nested loop without an effect on the variables of the enclosing code")
+            lp.fixed = [p for p in self.lean_param_names if p in free and p not in assigned]
+            lp.fixed += [x for x in free if x not in lp.fixed and x not in lp.carried]
+            for x in lp.fixed:
+                if x not in env or x == self.FACTS:
+                    bad(st, "variable %s may be read before it is assigned" % x)
+                ptypes.setdefault(x, env[x])
+                if x in assigned:
+                    ptypes[x] = env[x]
+        else:
+            lp.fixed = [p for p in self.lean_param_names if p in free and p not in assigned]
+            lp.carried = [x for x in free if x not in lp.fixed]
         for x in lp.carried:
             if x not in env or x == self.FACTS:
                 bad(st, "variable %s may be read before it is assigned" % x)
-        ptypes = dict(self.params)
+        lp.ctypes = [env[x] for x in lp.carried]
         sig = " ".join("(%s : %s)" % (p, tshow(ptypes[p])) for p in lp.fixed)
-        ty = " → ".join([tshow(("List", ety), False)] + [tshow(env[x], False) for x in lp.carried]
-                        + [tshow(self.restype(), False)])
+        res = self.restype()
+        if nested:
+            res = lp.ctypes[0] if len(lp.ctypes) == 1 else ("Prod", tuple(lp.ctypes))
+            if self.raises:
+                res = ("Option", res)
+        ty = " → ".join([tshow(("List", ety) if not is_while else "Nat", False)]
+                        + [tshow(env[x], False) for x in lp.carried] + [tshow(res, False)])
         args = "".join(", " + x for x in lp.carried)
         lines = ["def %s %s %s : %s" % (lp.name, self.header, sig, ty)]
-        lines += ["  | []%s =>" % args] + pp(nil, 2)
-        lines += ["  | %s :: %s%s =>" % (pat_show(pat), lp.tl, args)] + pp(body, 2)
+        if is_while:
+            lines += ["  | %s%s =>" % (fuel, args)] + pp(body, 2)
+        else:
+            lines += ["  | []%s =>" % args] + pp(nil, 2)
+            lines += ["  | %s :: %s%s =>" % (pat_show(pat), lp.tl, args)] + pp(body, 2)
         self.defs.append("\n".join(lines))
-        return self.wrap(pre, Call(lp, lst), st)
+        if not nested:
+            return self.wrap(pre, Call(lp, lst), st)
+        patc = lp.carried[0] if len(lp.carried) == 1 else tuple(lp.carried)
+        if self.raises:
+            return self.wrap(pre, MatchOpt(Call(lp, lst), patc, after(env), self.none(st)), st)
+        return self.wrap(pre, Let(patc, Call(lp, lst), after(env)), st)
 
     def iterable(self, it, tgt, env):
         """-> (pre, Lean list term, element type, Lean pattern, {pattern var: type})"""
@@ -718,6 +1065,14 @@ class Fn:
                         bad(n, "range over a value that is not a natural number")
                     v = self.coerce(v, ty, "Nat", n)
                     return pre, Tm("(List.range {0})", [v]), "Nat", None
+                if f == "range" and len(n.args) == 2:
+                    # range(a, b) = a, a+1, ..., b-1 (empty when b <= a: truncated subtraction)
+                    p1, a, ta = self.expr(n.args[0], env, "Nat")
+                    p2, b, tb = self.expr(n.args[1], env, "Nat")
+                    if ta not in ("Nat", "IntLit") or tb not in ("Nat", "IntLit"):
+                        bad(n, "range over values that are not natural numbers")
+                    a, b = self.coerce(a, ta, "Nat", n), self.coerce(b, tb, "Nat", n)
+                    return p1 + p2, Tm("(List.range' {0} ({1} - {0}))", [a, b]), "Nat", None
                 if f == "zip" and len(n.args) == 2:
                     p1, a, ta, _ = lst(n.args[0])
                     p2, b, tb, _ = lst(n.args[1])
@@ -760,6 +1115,8 @@ class Fn:
             return v
         if ty == "Nat" and want == "Int":
             return Tm("({0} : Int)", [v])
+        if isinstance(want, tuple) and want[0] == "Option" and not (isinstance(ty, tuple) and ty[0] == "Option"):
+            return Tm("(some {0})", [self.coerce(v, ty, want[1], node)])
         if ty == "IntLit" and want in self.carrier:
             bad(node, "integer literal used as a value of the opaque carrier %s" % want)
         bad(node, "type mismatch: have %s, need %s" % (tshow(ty), tshow(want)))
@@ -827,6 +1184,10 @@ class Fn:
             return [], V(lv), ty
         if isinstance(n, ast.Constant):
             v = n.value
+            if v is None:
+                if isinstance(want, tuple) and want[0] == "Option":
+                    return [], C("(none : %s)" % tshow(want)), want
+                bad(n, "None where the spec does not expect an optional value")
             if isinstance(v, bool):
                 return [], C("true" if v else "false"), "Bool"
             if isinstance(v, int):
@@ -943,6 +1304,12 @@ class Fn:
         return pre, Op(op, a, b), ty
 
     def subscript(self, n, env, want):
+        ref = self.table_ref(n, env)
+        if ref is not None:
+            # obj.features['key'] read from a table: no entry at the object's position = KeyError
+            pre, tab, key, vty = ref
+            t = self.tmp()
+            return pre + [("bind", t, Tm("{0}[{1}]?", [V(tab), key]))], V(t), vty
         pre, b, tb = self.expr(n.value, env)
         sl = n.slice
         if isinstance(sl, ast.Constant) and isinstance(sl.value, str):
@@ -1059,6 +1426,15 @@ class Fn:
             if len(n.ops) != 1:
                 bad(n, "chained comparison")
             o = n.ops[0]
+            if isinstance(o, (ast.Is, ast.IsNot)):
+                rhs = n.comparators[0]
+                if not (isinstance(rhs, ast.Constant) and rhs.value is None):
+                    bad(n, "`is` with something other than None")
+                p1, a, ta = self.expr(n.left, env)
+                if not (isinstance(ta, tuple) and ta[0] == "Option"):
+                    bad(n, "`is None` on a value that the spec does not declare optional")
+                c = Op("=", a, C("none"))
+                return p1, (c if isinstance(o, ast.Is) else Not(c))
             p1, a, ta = self.expr(n.left, env)
             p2, b, tb = self.expr(n.comparators[0], env)
             if isinstance(o, (ast.Eq, ast.NotEq)) and ta == tb and ta in self.eqs:
@@ -1104,6 +1480,10 @@ HELPERS = {
     "pyGet": ("/-- `xs[k]` for a signed index (negative counts from the end); `none` = IndexError -/\n"
               "def pyGet {α : Type} (xs : List α) (k : Int) : Option α :=\n"
               "  if 0 ≤ k then xs[k.toNat]? else if -(xs.length : Int) ≤ k then xs[(xs.length + k).toNat]? else none"),
+    "pySet": ("/-- `xs[k] = v` (or an in-place update of `xs[k]`) for a signed index; `none` = IndexError -/\n"
+              "def pySet {α : Type} (xs : List α) (k : Int) (v : α) : Option (List α) :=\n"
+              "  if 0 ≤ k then (if k.toNat < xs.length then some (xs.set k.toNat v) else none)\n"
+              "  else if -(xs.length : Int) ≤ k then some (xs.set (xs.length + k).toNat v) else none"),
     "pyDel": ("/-- `del xs[k]` for a signed index; `none` = IndexError -/\n"
               "def pyDel {α : Type} (xs : List α) (k : Int) : Option (List α) :=\n"
               "  if 0 ≤ k then (if k.toNat < xs.length then some (xs.eraseIdx k.toNat) else none)\n"
